@@ -54,7 +54,7 @@ Definition wfp (p : packet) : Prop := p_seq p < two64.
 Definition wfcp (cp : cleanpkt) : Prop := cp_seq cp < two64.
 
 (** uint64 typing of the operations' sequence numbers *)
-Definition op_wf (o : op) : Prop :=
+Definition op_wf (o : op A) : Prop :=
   match o with
   | OSend p | ORecv p _ _ | OAck p _ _ _ => wfp p
   | OClean cp | ORecvClean cp _ _ => wfcp cp
@@ -564,3 +564,5 @@ Proof.
 Qed.
 
 End Facts.
+
+Arguments op_wf {A} o.
